@@ -183,6 +183,11 @@ func (o *Out) Fail(key, what string) {
 	fmt.Fprintf(o.w, "!FAIL\t%s\t%s\n", key, strings.ReplaceAll(what, "\n", " | "))
 }
 
+// Unchecked reports that the harness could not exercise the implementation the way a stage
+// needs (hooks not passed, an accessor that no longer applies, ...): the correspondence is
+// broken, which is reported without a failing input.
+func (o *Out) Unchecked(name, what string) { o.Fail("unchecked:"+name, what) }
+
 func (o *Out) Count(hist, bucket string) {
 	o.mu.Lock()
 	defer o.mu.Unlock()
